@@ -523,14 +523,14 @@ class SigmaCorrelationRule(SigmaRuleBase, ProcessingItemTrackingMixin):
         source: SigmaRuleLocation | None = None,
     ) -> Self:
         kwargs, errors = super().from_dict_common_params(rule, collect_errors, source)
-        correlation_rule = rule.get("correlation", dict())
+        correlation_rule: Any = rule.get("correlation", dict())
         if not isinstance(correlation_rule, dict):
             errors.append(
                 sigma_exceptions.SigmaCorrelationRuleError(
                     "Sigma correlation definition must be a map", source=source
                 )
             )
-            correlation_rule = dict()
+            correlation_rule = cast(Any, dict())
 
         # Correlation type
         correlation_type = correlation_rule.get("type")
